@@ -345,3 +345,13 @@ Proof.
 Qed.
 
 Print Assumptions read_rendered_bytes.
+
+(* the statement that is also true of the library: no line break inside an attribute value of a span *)
+Theorem read_rendered_bytes_go : forall r m pc prolog,
+  render_ok r m = true -> bytes_ok_go r m = true -> pchoice_ok pc (render_std r m) = true -> prolog_ok prolog = true ->
+  exists t, xml_parse2 (prolog ++ print2 print_name pc (render_std r m)) = Some t /\ read_ttml t = Ok (denote_ttml r m).
+Proof.
+  intros r m pc prolog Hr Hb Hp Hq. unfold bytes_ok_go in Hb. apply andb_true_iff in Hb. destruct Hb as [Hb _].
+  exact (read_rendered_bytes r m pc prolog Hr Hb Hp Hq).
+Qed.
+Print Assumptions read_rendered_bytes_go.
